@@ -30,7 +30,7 @@ def maxPartDefined (s : Source) (args : List Nat) : Bool :=
   !args.isEmpty && args.all (fun u =>
     match s.find u with
     | none => false
-    | some it => it.isBaseSet || checkCst it args)
+    | some it => checkCst it args)
 
 /-- one scan of the list (`for (entity : schema.List())` in `GetAllCstMaxPart`) -/
 def scan (s : Source) (sel : List Nat) : List Nat :=
